@@ -389,6 +389,8 @@ def _run_git(case, obs):
             error = e
         head_subject = _git("-C", repo_dir, "show", "-s", "--format=%s", "HEAD")
         head_branch = _git("-C", repo_dir, "rev-parse", "--abbrev-ref", "HEAD")
+        head_short = _git("-C", repo_dir, "rev-parse", "HEAD")
+        recorded_revision = r.revision
     finally:
         for k, v in saved_env.items():
             if v is None:
@@ -412,6 +414,12 @@ def _run_git(case, obs):
 
     if error is None and kind == "heads":
         _safety(name, all_names, version, obs, where)
+    # the revision Rally remembers (and hands to every other actor of the race, which pin their working copy to it) is the commit that
+    # is checked out; it may be left unset when nothing had to be switched
+    if error is None and recorded_revision is not None:
+        obs.check(recorded_revision == head_short, "git/recorded-revision-is-not-the-checked-out-commit",
+                  f"{where}: {observed}; repo.revision = {recorded_revision!r} but HEAD is {head_short!r}")
+        obs.cls("git:revision-recorded")
     winners = {w for w in ref["acceptable"] if w is not None}
     ok = False
     if error is None and kind == "heads" and name in winners and head_branch == name:
